@@ -244,14 +244,14 @@ pub fn run(ctx: &Ctx, rep: &mut Report) {
         }
         let marks = if f.arity == 1 { landmarks(&f) } else { Vec::new() };
         let span = (f.hi as i64 - f.lo as i64) as u64;
-        // unary: quick = 2^22 uniform over the domain + landmarks; thorough = every 16th pattern of
+        // unary: quick = 2^24 uniform over the domain + landmarks; thorough = every 16th pattern of
         // the domain (seed-rotated offset) + landmarks; full = every pattern
         let (n_uniform, stride): (u64, u64) = if f.arity == 2 {
-            (ctx.pick(1 << 22, 1 << 29), 0)
+            (ctx.pick(1 << 24, 1 << 29), 0)
         } else if full {
             (0, 1)
         } else if ctx.quick() {
-            (1 << 22, 0)
+            (1 << 24, 0)
         } else {
             (0, 16)
         };
@@ -422,7 +422,7 @@ pub fn run(ctx: &Ctx, rep: &mut Report) {
 /// required sign). Decided here, no arbiter needed: the expected answer is a class, not a value.
 fn class_checks(ctx: &Ctx, rep: &mut Report, only: Option<&str>) {
     const NAR: u32 = 0x8000_0000;
-    let n = ctx.pick(1 << 16, 1 << 22);
+    let n = ctx.pick(1 << 18, 1 << 22);
     for f in funcs() {
         if let Some(o) = only {
             if !f.name.contains(o) {
